@@ -27,23 +27,32 @@ Inductive case :=
    reflection, bound methods, func fields, map entries, native functions calling Value.Call, ...) that the script
    calls with a callback; [fault]: who panics (a host function called by the callback, an interrupt function at a
    polling point inside the callback, the host function itself after [calls] callbacks, ...); [ctx]: 0 = no try block
-   of the script around the call, 1 = try/catch around it, 2 = try/finally around it.
+   of the script around the call, 1 = try/catch around it, 2 = try/finally around it, 3 = try/finally around it and
+   try/catch around that; [vk]: 0 = the host's panic value has a JavaScript form (string, number), 1 = it has none
+   (a Go error value, a struct).
    Observed: ended (0 Run unwound with the host's own panic value, 1 Run returned normally, 2 Run returned the host's
-   value as an error, 3 another panic, 4 not stopped, 5 another error), seen = callback entries, caught = what the
+   value as an error, 3 another panic, 4 not stopped, 5 another error, 6 Run returned a TypeError), seen = callback entries, caught = what the
    catch clause got (0 not run, 1 the host's own value, 2 anything else), fin = finally block ran, after = the
    statement after the call ran *)
-| BCase (route fault ctx calls ended seen caught fin after : Z) (rest : bool).
+| BCase (route fault ctx vk calls ended seen caught fin after : Z) (rest : bool).
 
 (* what a host panic below a host function does, as [ended; seen; caught; fin; after].
    Go frames of the bridge pass it unchanged, so only the script's own try blocks matter: the property (b_spec) says Run
    unwinds with it whatever the script has around the call; otto (b_model) lets a surrounding try block recover it
    (tryCatchEvaluate, finding C18-try-intercepts): the catch clause then receives the host's value itself and the
-   script goes on; a finally block runs and the value goes on as a thrown value that Run returns as an error *)
+   script goes on; a finally block runs and the value goes on as a thrown value that Run returns as an error.
+   A value without a JavaScript form cannot be handed to the script: the conversion inside tryCatchEvaluate fails, the
+   try statement is left with a TypeError instead (neither its catch clause nor its finally block runs), which an outer
+   catch clause receives or Run returns *)
 Definition b_spec (calls : Z) : list Z := [0; calls; 0; 0; 0].
-Definition b_model (ctx calls : Z) : list Z :=
-  if ctx =? 1 then [1; calls; 1; 0; 1]
-  else if ctx =? 2 then [2; calls; 0; 1; 0]
-  else b_spec calls.
+Definition b_model (ctx vk calls : Z) : list Z :=
+  if ctx =? 0 then b_spec calls
+  else if vk =? 0 then
+    (if ctx =? 1 then [1; calls; 1; 0; 1]
+     else if ctx =? 2 then [2; calls; 0; 1; 0]
+     else [1; calls; 1; 1; 1])
+  else
+    (if ctx =? 3 then [1; calls; 2; 0; 1] else [6; calls; 0; 0; 0]).
 
 (* polls the wrapper spends before the body's block and after it.
    global mode: the `var` statement plays the role of the block's own poll.
@@ -79,9 +88,9 @@ Definition count_true (l : list bool) : Z := Z.of_nat (length (filter (fun b => 
 Definition verdict (c : case) : Z * Z :=
   match c with
   | LCase _ stopped aspanic rest => if stopped && aspanic && rest then (0, 0) else (3, 6)
-  | BCase _ _ ctx calls ended seen caught fin after rest =>
+  | BCase _ _ ctx vk calls ended seen caught fin after rest =>
       if negb rest then (3, 7)
-      else judge zlist_eqb [ended; seen; caught; fin; after] (b_model ctx calls) (b_spec calls) (if ctx =? 0 then 0 else 1)
+      else judge zlist_eqb [ended; seen; caught; fin; after] (b_model ctx vk calls) (b_spec calls) (if ctx =? 0 then 0 else 1)
   | WCase p lg followup =>
       let '(ml, mo) := Full.run_program ffuel p in
       match mo with
